@@ -287,6 +287,63 @@ Not decided: that the (min, max) handed to the selector is the true hull of the 
     signed_flag(m, ctx, "C06.signed");
     crate::rules::c07::named_lookup(m, ctx, "C06.named");
     agree(m, ctx, "C06.agree");
+    selector_arguments(m, ctx);
+}
+
+/// C06.args: the width selectors are exact (C06.tree), so the type is right iff they are handed the right numbers: wherever
+/// constraints_and_type_name chooses the type of an INTEGER component, the selector must receive the lower bound, the upper
+/// bound and the extensibility of the effective constraint — in that order. The INTEGER arm is evaluated with an effective
+/// constraint -5..300 (not extensible) and with 0..300 extensible; the selector's arguments are read back.
+fn selector_arguments(m: &Model, ctx: &mut Ctx) {
+    let Some(f) = anchor_fn(m, ctx, "C06.args", Some("Rasn"), "constraints_and_type_name", None) else { return };
+    let Some(mt) = model::matches_in(&f.block).into_iter().find(|mt| mt.arms.iter().any(|a| tok(&a.pat).starts_with("ASN1Type::Integer("))) else {
+        ctx.fail_closed("C06.args", "constraints_and_type_name: no arm for ASN1Type::Integer");
+        return;
+    };
+    let consts = const_resolver(m);
+    for (lo, hi, ext) in [(-5i128, 300i128, false), (0, 300, true)] {
+        ctx.oblige("C06.args", &format!("{}..{} ext={}", lo, hi, ext), true);
+        let seen: std::cell::RefCell<Option<Vec<Val>>> = std::cell::RefCell::new(None);
+        let hook = |_: &Evaluator, name: &str, a: &[Val]| -> Option<Result<Val, String>> {
+            match name {
+                "per_visible_range_constraints" => {
+                    let mut n = BTreeMap::new();
+                    n.insert("min".to_string(), Val::some(Val::int(lo)));
+                    n.insert("max".to_string(), Val::some(Val::int(hi)));
+                    n.insert("extensible".to_string(), Val::Bool(ext));
+                    n.insert("is_size_constraint".to_string(), Val::Bool(false));
+                    Some(Ok(Val::Ctor("Ok".into(), vec![Val::Ctor("PerVisibleRangeConstraints".into(), vec![], n)], BTreeMap::new())))
+                }
+                "I::from_i128" => Some(Ok(Val::some(a.first().cloned().unwrap_or(Val::Unit)))),
+                ".int_type_token" => {
+                    *seen.borrow_mut() = Some(a[1..].to_vec());
+                    Some(Ok(Val::Sym("TYPE".into())))
+                }
+                ".to_token_stream" | ".clone" if a.len() == 1 => Some(Ok(a[0].clone())),
+                _ => None,
+            }
+        };
+        let inl = inline_all(m, &["PerVisibleRangeConstraints"]);
+        let ev = Evaluator { consts: &consts, call_hook: &hook, inline: Some(&inl) };
+        let mut i = BTreeMap::new();
+        i.insert("constraints".to_string(), Val::List(vec![Val::Sym("c".into())]));
+        i.insert("distinguished_values".to_string(), Val::none());
+        let ty = Val::Ctor("Integer".into(), vec![Val::Ctor("Integer".into(), vec![], i)], BTreeMap::new());
+        let mut env = Env::new();
+        env.insert("self".into(), Val::ctor("Rasn"));
+        let r = ev.select_arm(&mt, &ty, &env).and_then(|(k, mut e2)| ev.eval(&mt.arms[k].body, &mut e2));
+        let got: Option<Vec<Val>> = seen.borrow().clone();
+        match (r, got) {
+            (Ok(_), Some(args)) => {
+                let want = vec![Val::some(Val::int(lo)), Val::some(Val::int(hi)), Val::Bool(ext)];
+                if args != want {
+                    ctx.violate("C06.args", "constraints_and_type_name", &f.file, span_line(&mt), &format!("for an INTEGER component with the effective constraint {}..{}{} the width selector is handed ({}); it must get (lower bound, upper bound, extensible) = ({})", lo, hi, if ext { ", ..." } else { "" }, args.iter().map(|v| v.show()).collect::<Vec<_>>().join(", "), want.iter().map(|v| v.show()).collect::<Vec<_>>().join(", ")));
+                }
+            }
+            (Ok(_), None) => ctx.violate("C06.args", "constraints_and_type_name", &f.file, span_line(&mt), "the INTEGER arm of constraints_and_type_name does not consult the width selector"),
+            (Err(e), _) => ctx.fail_closed("C06.args", &format!("[constraints_and_type_name]: {}", e)),
+        }
+    }
 }
 
 fn judge(ctx: &mut Ctx, f: &FnInfo, scenario: &str, res: &Val, lo: Option<i128>, hi: Option<i128>, ext: bool, both_integral: bool) {
